@@ -241,7 +241,7 @@ impl C17 {
 
 impl Monitor for C17 {
     fn total_cases(&self) -> u64 {
-        self.tier.pick(3_000, 200_000)
+        self.tier.pick(8_000, 300_000)
     }
     fn run_case(&mut self, k: u64, rng: &mut Rng, col: &mut Collector) {
         self.case(k, rng, col);
